@@ -317,6 +317,8 @@ def verify(t: Target, seed=0, prefixes=None, budget=None, budget_s=None):
     eng = Engine(models=dict(t.models), inline=set(t.inline))
     eng.models[now] = Model(_m_now, 'now', assumed=False)
     eng.loop_specs = dict(t.loops)
+    eng.loop_phase = getattr(t, 'loop_phase', None)
+    eng.regex_forget_nonmatch = getattr(t, 'regex_forget_nonmatch', False)
     globs = vars(mod)
     target_func = Func(node, None, globs, name=t.qualname)
     eng.target_func = target_func
@@ -362,6 +364,8 @@ def verify(t: Target, seed=0, prefixes=None, budget=None, budget_s=None):
                 args = [env[n] for n in names if n in env]
             for rq in t.requires:
                 p.assume(eval_clause(I, rq.fn, env))
+            p.n_input_pc = len(p.pc)
+            p.no_fork = eng.loop_phase == 'body'
             old = snapshot(env, p)
             env['old'] = old
             env['ghost'] = p.ghost
